@@ -11,7 +11,7 @@ fn any_bits(max: u32) -> u32 {
     b
 }
 
-// @harness qsieve_large_prime_factor unit=qsieve::large_prime_factor props=C20
+// @harness qsieve_large_prime_factor unit=qsieve::large_prime_factor props=C20,C03
 #[kani::proof]
 #[kani::stub(bnum::BUint::bits, stub_bits)]
 fn qsieve_large_prime_factor_ok() {
